@@ -236,6 +236,20 @@ def run_case(case):
         except LibraryRaised as err:
             rec.check(False, f"{fp}/distance-raised", f"{label}: distance_along_line raised", 'distance', str(err))
 
+        # the same path given with a third ordinate (a glider track with depths): the horizontal answer is the same
+        if len(path) == 3 and segments:
+            try:
+                line3 = LineString([(pts[k].x, pts[k].y, 100.0 * (n + 1) ** 2) for n, k in enumerate(path)])
+                segments3 = lib(lambda: Transect(ds, line3, depth=depth_name).segments)
+                same3 = len(segments3) == len(segments) and all(
+                    int(a.linear_index) == int(b.linear_index) and abs(a.start_distance - b.start_distance) < 1e-6
+                    and abs(a.end_distance - b.end_distance) < 1e-6 for a, b in zip(segments3, segments))
+                rec.check(same3, f"{fp}/third-ordinate", f"{label}: the path with z values gives other segments",
+                          [(int(s.linear_index), round(s.start_distance, 3)) for s in segments][:6],
+                          [(int(s.linear_index), round(s.start_distance, 3)) for s in segments3][:6])
+            except LibraryRaised as err:
+                rec.check(False, f"{fp}/third-ordinate", f"{label}: a path with z values raised", 'segments', str(err))
+
         # data prepared for plotting
         try:
             tds = lib(lambda: transect.transect_dataset)
@@ -252,6 +266,11 @@ def run_case(case):
                 want_values = labels[:, :, [int(s.linear_index) for s in segments]]
                 rec.check(ref.same_values(values, want_values), f"{fp}/values-not-of-segment-cell",
                           f"{label}: prepared data does not hold each segment's cell values at every depth", want_values[0, :, :4], values[0, :, :4])
+                if len(segments) >= 3:
+                    lazy = lib(transect.prepare_data_array_for_transect, ds['temp'].chunk())
+                    lazy_values = lazy.transpose(truth.time_dim, truth.depth_dim, lazy.dims[-1]).values
+                    rec.check(ref.same_values(lazy_values, want_values), f"{fp}/values-not-of-segment-cell",
+                              f"{label}: prepared data of a lazily loaded (dask) variable", want_values[0, :, :4], lazy_values[0, :, :4])
         except LibraryRaised as err:
             rec.check(False, f"{fp}/dataset-raised", f"{label}: transect_dataset / prepare raised", 'dataset', str(err))
     rec.outcome([truth.family, case['first'], outcomes])
